@@ -20,7 +20,11 @@ import (
 //     failing input is minimal;
 //   - every hole of a random selection of forms at random, behind a random prologue (multi-byte comment lines, Go
 //     blocks, CRLF) so that line numbers, columns and byte indices all differ from one another;
-//   - the single blank after a keyword / operator / delimiter of the repository's own templates.
+//   - the single blank after a keyword / operator / delimiter, and the blanks (or nothing) in front of a closing or
+//     suffix token (`...`, `}`, `}}`, `)`, `>`, `/>`, `:`, `;`, `,`, `{`), of the repository's own templates.
+// Holes stand on BOTH sides of every token: after every keyword / operator / opening delimiter and in front of every
+// operator, suffix operator (`...`, `++`), separator and closing token - a constructor that strips or skips a suffix has
+// to move the end of the range over whatever white space (line breaks included) stood in front of it.
 // Whether a layout is legal is decided by the real parser, generator and gofmt (`accepted`); every recorded range of
 // every accepted tree is judged by the extracted specification predicate like any other input of the sweep.
 
@@ -59,35 +63,40 @@ type layoutForm struct {
 
 // The enclosing file declares: other(x, y int) templ.Component; T(x int, xs []string, s string, b bool, at templ.Attributes).
 var layoutForms = []layoutForm{
-	{"if", false, "if«after `if`| »x ==«after operator| »1«before {| »{«after {|»\n<a></a>\n}\n"},
-	{"if with init", false, "if«after `if`| »y := x;«after ;| »y >«after operator| »1 &&«after operator| »b«before {| »{\n<a></a>\n}\n"},
-	{"else if", false, "if x == 1 {\n<a></a>\n}«before `else`| »else«between `else` and `if`| »if«after `else if`| »x ==«after operator| »2«before {| »{\n<b></b>\n}«before `else`| »else«after `else`| »{\n<i></i>\n}\n"},
+	{"if", false, "if«after `if`| »x«before operator| »==«after operator| »1«before {| »{«after {|»\n<a></a>\n«before closing }|»}\n"},
+	{"if with init", false, "if«after `if`| »y := x«before ;|»;«after ;| »y >«after operator| »1 &&«after operator| »b«before {| »{\n<a></a>\n}\n"},
+	{"else if", false, "if x == 1 {\n<a></a>\n«before closing }|»}«before `else`| »else«between `else` and `if`| »if«after `else if`| »x ==«after operator| »2«before {| »{\n<b></b>\n«before closing }|»}«before `else`| »else«after `else`| »{\n<i></i>\n«before closing }|»}\n"},
 	{"else if twice", false, "if x == 1 {\n<a></a>\n} else if«after `else if`| »x == 2 {\n<b></b>\n} else if«after `else if`| »y := x;«after ;| »y == 3 {\n<i></i>\n}\n"},
-	{"for range", false, "for«after `for`| »_, v :=«after :=| »range«after `range`| »xs«before {| »{\n<p>{ v }</p>\n}\n"},
-	{"for clauses", false, "for«after `for`| »i := 0;«after ;| »i <«after operator| »3;«after ;| »i++«before {| »{\n<p></p>\n}\n"},
+	{"for range", false, "for«after `for`| »_, v«before :=| »:=«after :=| »range«after `range`| »xs«before {| »{\n<p>{ v }</p>\n«before closing }|»}\n"},
+	{"for clauses", false, "for«after `for`| »i := 0«before ;|»;«after ;| »i <«after operator| »3«before ;|»;«after ;| »i«before ++|»++«before {| »{\n<p></p>\n}\n"},
 	{"for condition", false, "for«after `for`| »x >«after operator| »100«before {| »{\n<p></p>\n}\n"},
-	{"switch", false, "switch«after `switch`| »x«before {| »{\n«before `case`|\t»case«after `case`| »1,«after ,| »2«before :|»:\n<a></a>\n«before `case`|\t»case«after `case`| »3:\n<b></b>\n«before `default`|\t»default«after `default`|»:\n<i></i>\n}\n"},
+	{"switch", false, "switch«after `switch`| »x«before {| »{\n«before `case`|\t»case«after `case`| »1«before ,|»,«after ,| »2«before :|»:\n<a></a>\n«before `case`|\t»case«after `case`| »3«before :|»:\n<b></b>\n«before `default`|\t»default«after `default`|»:\n<i></i>\n«before closing }|»}\n"},
 	{"switch with init", false, "switch«after `switch`| »y := x;«after ;| »y«before {| »{\ncase«after `case`| »1:\n<a></a>\n}\n"},
-	{"type switch", false, "switch«after `switch`| »any(x).(«after (|»type)«before {| »{\ncase«after `case`| »int,«after ,| »string:\n<a></a>\ndefault«after `default`|»:\n<b></b>\n}\n"},
-	{"tagless switch", false, "switch«after `switch`| »{\ncase«after `case`| »x >«after operator| »1:\n<a></a>\n}\n"},
-	{"call", false, "@«after @|»other(«after (|»x,«after ,| »2«before )|»)«after call|»\n"},
-	{"call with children", false, "@other(x,«after ,| »2)«before {| »{«after {|»\n<a></a>\n}\n"},
-	{"call of a selector", false, "@c.«after .|»Child(«after (|»x)«after call|»\n<p></p>\n"},
-	{"legacy call", false, "{!«after {!| »other(x,«after ,| »2)«before }| »}\n"},
-	{"string expression", false, "<p>{«after {| »s +«after operator| »s«before }| »}«after }|»</p>\n"},
-	{"string expression on a line", false, "{«after {| »strings.Repeat(«after (|»s,«after ,| »2)«before }| »}\n"},
-	{"go code", false, "{{«after {{| »y :=«after :=| »s +«after operator| »s«before }}| »}}\n<p>{ y }</p>\n"},
-	{"attribute expression", false, "<a href={«after ={| »templ.URL(s)«before }| »}«between attributes| »title={«after ={| »s +«after operator| »s«before }| »}></a>\n"},
-	{"bool attribute expression", false, "<input disabled?={«after ?={| »b &&«after operator| »b«before }| »}/>\n"},
-	{"spread attributes", false, "<div«between attributes| »{«after {| »at...«before }| »}></div>\n"},
-	{"conditional attribute", false, "<div if«after `if`| »b &&«after operator| »b«before {| »{\n class=\"x\"\n }«before `else`| »else«after `else`| »{\n id=\"y\"\n }></div>\n"},
+	{"type switch", false, "switch«after `switch`| »any(x)«before .|».(«after (|»type«before )|»)«before {| »{\ncase«after `case`| »int,«after ,| »string«before :|»:\n<a></a>\ndefault«after `default`|»:\n<b></b>\n}\n"},
+	{"tagless switch", false, "switch«after `switch`| »{\ncase«after `case`| »x >«after operator| »1«before :|»:\n<a></a>\n}\n"},
+	{"call", false, "@«after @|»other«before (|»(«after (|»x«before ,|»,«after ,| »2«before )|»)«after call|»\n"},
+	{"call with children", false, "@other(x,«after ,| »2«before )|»)«before {| »{«after {|»\n<a></a>\n«before closing }|»}\n"},
+	{"call of a selector", false, "@c«before .|».«after .|»Child(«after (|»x«before )|»)«after call|»\n<p></p>\n"},
+	{"legacy call", false, "{!«after {!| »other(x,«after ,| »2«before )|»)«before }| »}\n"},
+	{"string expression", false, "<p>{«after {| »s«before operator| »+«after operator| »s«before }| »}«after }|»</p>\n"},
+	{"string expression on a line", false, "{«after {| »strings.Repeat(«after (|»s«before ,|»,«after ,| »2«before )|»)«before }| »}\n"},
+	{"composite literal in a string expression", false, "{«after {| »fmt.Sprint([]int«before {|»{«after {|»1,«after ,| »2«before }|»}«before )|»)«before }| »}\n"},
+	{"go code", false, "{{«after {{| »y«before :=| »:=«after :=| »s +«after operator| »s«before }}| »}}\n<p>{ y }</p>\n"},
+	{"attribute expression", false, "<a href«before =|»=«after =|»{«after ={| »templ.URL(s)«before }| »}«between attributes| »title={«after ={| »s +«after operator| »s«before }| »}«before >|»></a«before > of the end tag|»>\n"},
+	{"bool attribute expression", false, "<input disabled«before ?=|»?=«after ?=|»{«after ?={| »b &&«after operator| »b«before }| »}«before />|»/>\n"},
+	{"spread attributes", false, "<div«between attributes| »{«after {| »at«before ...|»...«before }| »}«before >|»></div>\n"},
+	{"spread attributes of a call", false, "<div id=\"a\"«between attributes| »{«after {| »templ.Attributes{«after {|»\"k\":«after :| »s«before }|»}«before ...|»...«before }| »}«between attributes| »class=\"b\"«before >|»></div>\n"},
+	{"conditional attribute", false, "<div if«after `if`| »b &&«after operator| »b«before {| »{\n class=\"x\"\n «before closing }|»}«before `else`| »else«after `else`| »{\n id=\"y\"\n «before closing }|»}«before >|»></div>\n"},
 	{"go code in script", false, "<script>var v = {{«after {{| »s +«after operator| »s«before }}| »}};</script>\n"},
-	{"children", false, "@other(x, 2) {\n{«after {| »children...«before }| »}\n}\n"},
-	{"templ header", true, "templ«after `templ`| »H1(«after (|»x int,«after ,| »y int«before )|»)«before {| »{«after {|»\n<a>{ fmt.Sprint(x, y) }</a>\n}\n"},
-	{"templ header with receiver", true, "type R struct{ v string }\n\ntempl«after `templ`| »(«after (|»r R)«after receiver| »H2()«before {| »{\n<a>{ r.v }</a>\n}\n"},
-	{"css header and property", true, "css«after `css`| »cls(«after (|»w string)«before {| »{\n\tcolor:«after :| »{«after {| »w«before }| »};\n}\n"},
-	{"script header", true, "script«after `script`| »scr(«after (|»a string,«after ,| »n int«before )|»)«before {| »{\n\tconsole.log(a, n);\n}\n"},
-	{"go block", true, "func«after `func`| »helper(«after (|»a int)«before result| »int«before {| »{\n\treturn a +«after operator| »1\n}\n"},
+	{"children", false, "@other(x, 2) {\n{«after {| »children«before ...|»...«before }| »}\n}\n"},
+	{"element tags", false, "<a«after element name| »href=\"x\"«before >|»>t</«after </|»a«before > of the end tag|»>\n"},
+	{"void and self-closing elements", false, "<br«before >|»>\n<hr«before />|»/>\n<img src=\"x\"«before />| »/>\n"},
+	{"constant and bool-constant attributes", false, "<input type«before =|»=«after =|»\"text\"«between attributes| »required«between attributes| »data-x='y'«before />|»/>\n"},
+	{"templ header", true, "templ«after `templ`| »H1«before (|»(«after (|»x int«before ,|»,«after ,| »y int«before )|»)«before {| »{«after {|»\n<a>{ fmt.Sprint(x, y) }</a>\n«before closing }|»}\n"},
+	{"templ header with receiver", true, "type R struct{ v string }\n\ntempl«after `templ`| »(«after (|»r R«before )|»)«after receiver| »H2(«between ( and )|»)«before {| »{\n<a>{ r.v }</a>\n}\n"},
+	{"css header and property", true, "css«after `css`| »cls(«after (|»w string«before )|»)«before {| »{\n\tcolor«before :|»:«after :| »{«after {| »w«before }| »}«before ;|»;\n«before closing }|»}\n"},
+	{"script header", true, "script«after `script`| »scr(«after (|»a string,«after ,| »n int«before )|»)«before {| »{\n\tconsole.log(a, n);\n«before closing }|»}\n"},
+	{"go block", true, "func«after `func`| »helper(«after (|»a int«before )|»)«before result| »int«before {| »{\n\treturn a +«after operator| »1\n«before closing }|»}\n"},
 }
 
 type layoutHole struct {
@@ -247,19 +256,45 @@ func layoutRandom(c *core.Ctx, r *rng.R) tcase {
 // the blank after a keyword, operator or opening delimiter of an existing template
 var reLayoutSite = regexp.MustCompile(`(?:\b(?:if|for|switch|case|else|range|templ|css|script|func|return)|[,;({@=:+]|:=|==|!=|&&|\|\||\{\{|\{!|\)|\}) `)
 
+// the (possibly empty) run of blanks in front of a closing or suffix token of an existing template: the spread /
+// children operator, closing braces, parentheses and tag ends, colons, semicolons, commas, an opening brace that ends a
+// control-flow expression.  Whatever the constructor removes or skips there has to be accounted for in Range.To.
+var reLayoutSuffix = regexp.MustCompile("[ \\t]*(?:\\.\\.\\.|\\}\\}|\\}|\\)|/>|>|:=|:|;|,|\\{)")
+
 func layoutRepo(c *core.Ctx, r *rng.R, whole []string) tcase {
 	s := rng.Pick(r, whole)
+	fam := ""
 	for k := 1 + r.Intn(3); k > 0; k-- {
-		sites := reLayoutSite.FindAllStringIndex(s, -1)
-		if len(sites) == 0 {
-			break
-		}
-		at := sites[r.Intn(len(sites))][1] - 1 // the blank
 		sep := rng.Pick(r, layoutSeps)
+		if r.Bool() {
+			sites := reLayoutSite.FindAllStringIndex(s, -1)
+			if len(sites) == 0 {
+				break
+			}
+			at := sites[r.Intn(len(sites))][1] - 1 // the blank
+			s = s[:at] + sep.text + s[at+1:]
+			if fam == "" {
+				fam = "keyword layout (blank after a keyword / operator / delimiter of a repository template replaced)"
+			}
+		} else {
+			sites := reLayoutSuffix.FindAllStringSubmatchIndex(s, -1)
+			if len(sites) == 0 {
+				break
+			}
+			m := sites[r.Intn(len(sites))]
+			tok := strings.TrimLeft(s[m[0]:m[1]], " \t")
+			s = s[:m[0]] + sep.text + s[m[1]-len(tok):]
+			c.Hist("keyword layout: separator put before `" + tok + "` of a repository template")
+			if fam == "" {
+				fam = "keyword layout (blanks before a closing / suffix token of a repository template replaced)"
+			}
+		}
 		c.Hist("keyword layout separator: " + sep.name)
-		s = s[:at] + sep.text + s[at+1:]
 	}
-	return tcase{"keyword layout (blank after a keyword / operator / delimiter of a repository template replaced)", s}
+	if fam == "" {
+		fam = "keyword layout (repository template without a site)"
+	}
+	return tcase{fam, s}
 }
 
 // layoutTable summarises, per hole, which separators the real tool chain accepted (so their ranges were judged).
